@@ -852,7 +852,11 @@ CHECKS = {
                           'FastPasta.C02.status_fault_at_any_depth', 'FastPasta.C02.data_fault_at_any_depth', 'FastPasta.C02.unknown_id_reported_anywhere',
                           'FastPasta.C02.unknown_id_never_silent', 'FastPasta.C02.quiet_class', 'FastPasta.C02.quiet_status_class', 'FastPasta.C02.quiet_data_class',
                           'FastPasta.C02.quiet_governing_ihw', 'FastPasta.C02.preData_codes', 'FastPasta.C02.status_fault_detected',
-                          'FastPasta.C02.checkWord_ihw', 'FastPasta.C02.same_shape_same_class']),
+                          'FastPasta.C02.checkWord_ihw', 'FastPasta.C02.same_shape_same_class',
+                          'FastPasta.C02.tdh_bc_order_at_any_depth', 'FastPasta.C02.tdh_first_copies_after_conforming_prefix',
+                          'FastPasta.C02.tdh_cont_copies_after_conforming_prefix', 'FastPasta.C02.depth_setup', 'FastPasta.C02.quiet_governing_tdh',
+                          'FastPasta.C02.tdh_first_copies', 'FastPasta.C02.tdh_bc_decreasing', 'FastPasta.C02.tdh_cont_copies',
+                          'FastPasta.C02.checkWord_fsm_rdh', 'FastPasta.C02.checkWord_tdh']),
     'C06': dict(modules=['FastPasta.Props.C06'], run=run_c06, needs_harness=True, corr='link_*',
                 theorems=['FastPasta.C06.dispatch_partition', 'FastPasta.C06.interleave_invariant', 'FastPasta.C06.other_links_irrelevant',
                           'FastPasta.C06.step_inv', 'FastPasta.C06.run_inv', 'FastPasta.C06.upd_other', 'FastPasta.C06.upd_own']),
